@@ -83,7 +83,10 @@ TK = {"endpointslice": "TEndpointSlice", "configmap": "TConfigMap", "mgmtconfigm
 
 
 def cq_task(t):
-    return "(mktask %s %d %s %s %s %s %s %s %s)" % (TK.get(t["kind"], "TOther"), t["qlen"],
+    tk = TK.get(t["kind"], "TOther")
+    if t["kind"] == "stale" and t.get("name") == "endpointslice":
+        tk = "TEndpointSlice"       # sync looks at the kind before it ignores the task
+    return "(mktask %s %d %s %s %s %s %s %s %s)" % (tk, t["qlen"],
                                                     C.cq_list(["(%s)" % cq_op(o) for o in t.get("work") or []]),
                                                     C.cq_bool(t.get("found", False)), C.cq_bool(t.get("reports", True)),
                                                     C.cq_bool(t.get("allrep", True)),
@@ -173,6 +176,8 @@ VERDICT = {
     5: ("reload-failure-not-reported", "the Reload that closes the batch failed and was not reported on any resource (no Warning event)"),
     8: ("reload-failure-not-reported", "the handler's own Reload failed, its object still exists, and nothing was reported on it (no Warning event)"),
     9: ("reload-failure-not-reported", "the Reload of updateAllConfigs failed and was reported neither on a resource nor on the ConfigMap/GlobalConfiguration"),
+    11: ("drain-left-window-open", "the queue was empty when the sync ended, yet reloads are still held back (batch still open or start-up not finished): "
+         "what the batch wrote is not reloaded and nothing will reload it until an unrelated event"),
     10: ("api-push-differs-from-file", "the sync wrote the file, pushed a different server list for the same upstream through the Plus API, the call succeeded and no reload followed"),
     7: ("change-not-applied", "outside any batch the sync changed a file but neither called Reload afterwards nor pushed the change through the Plus API"),
     6: ("reload-failure-not-reported", "a Reload that failed while endpoints were updated was only logged (no Warning event on the resources using the service)"),
@@ -260,6 +265,8 @@ def judge(run, cases, res):
                     site = "batch-end"
                 elif v == 9:
                     site = "updateAllConfigs"
+                elif v == 11:
+                    site = "queue-drained-by-" + t["kind"] + "-task"
                 elif ended and v == 4:
                     # the batch is syncs j..i; a ConfigMap task inside it makes updateAllConfigs the intended ending
                     # (then the reload without change is the by-design F16a class), otherwise the stale flag did it
